@@ -60,7 +60,9 @@ def inputs(t, rnd):
             vals.append("".join(rnd.choice(TOKENS) for _ in range(n)))
     # numbers a hair outside (and inside) every documented range, in every functional form
     hair = ["100.3%", "100.2%", "100.39%", "100.4%", "-0.3%", "-0.2%", "-0.39%", "100%", "0%", "255.4", "255.5", "255.6", "-0.4", "-0.6",
-            "256", "360.0001", "-0.0001", "1.001", "1.0001", "-0.001", "inf", "-inf", "nan", "1e400", "1e-400", "9" * 330, "9" * 330 + "%"]
+            "256", "360.0001", "-0.0001", "1.001", "1.0001", "-0.001", "inf", "-inf", "nan", "1e400", "1e-400", "9" * 330, "9" * 330 + "%",
+            # values that a modulo / comparison treats specially: a hair below zero, negative zero, denormals, a hair below a bound
+            "-1e-20", "-1e-300", "-0.0", "5e-324", "-5e-324", "359.99999999999997", "0.99999999999999994", "254.99999999999997"]
     for fn, arity in (("rgb", 3), ("rgba", 4), ("hsl", 3), ("hsla", 4)):
         base = {"rgb": ["10", "20", "30"], "rgba": ["10", "20", "30", "0.5"], "hsl": ["120", "50%", "50%"], "hsla": ["120", "50%", "50%", "0.5"]}[fn]
         for pos in range(arity):
@@ -91,6 +93,13 @@ def inputs(t, rnd):
     for body in ("{}", "{0}", "{1}", "{color}", "{0.hex}", "{!r}", "{:>10}", "${fg}", "@{brand}", "%s", "%(name)s", "%d%%", "{{x}}", "{", "}"):
         for pre, post in (("", ""), ("colour-", "-dark"), ("var(--", ")"), ("x", "y")):
             vals.append(pre + body + post)
+    # very long inputs: thousands of nested brackets / quotes around a valid value, and long runs of one character
+    for depth in (200, 1500, 5000):
+        for inner in ("255, 0, 0", "#fff", "red", ""):
+            vals.append("(" * depth + inner + ")" * depth)
+            vals.append("\"" * depth + inner + "\"" * depth)
+            vals.append("rgb" + "(" * depth + "1, 2, 3" + ")" * depth)
+    vals += [" " * 100000 + "#fff", "#" + "f" * 100000, "rgb(" + "1," * 50000 + "1)", "a" * 200000, "1" * 100000, "hsl(" + "9" * 5000 + ", 50%, 50%)"]
     vals += ["#-1-2-3", "#+1+2+3", "# 1 2 3", "#1_2_3_", "#0x0x0x", "#-f-f-f", "#- - - ", "#١٢٣", "#１２３", "#ⅠⅡⅢ"]
     # keywords spelled with characters that only SOME case mappings fold to ASCII (long s, ligatures, Kelvin sign, dotless i ...)
     folds = [("s", "\u017f"), ("fi", "\ufb01"), ("fl", "\ufb02"), ("ff", "\ufb00"), ("st", "\ufb06"), ("k", "\u212a"), ("i", "\u0131"), ("I", "\u0130"),
